@@ -356,6 +356,11 @@ def model_eval(spec, n, model):
         return M.denote(spec, n, model=model)
     except M.Diverged:
         raise Reject()
+    except Hang:
+        # the reference model itself ran out of CPU time (a filter that
+        # never lets anything through over ever-growing integers): the
+        # expression has no value to compare with
+        raise Reject()
     except M.Undecided:
         raise Reject()
     except (OverflowError, ZeroDivisionError):
